@@ -30,6 +30,7 @@ package types
 
 //@ func (Params) Validate
 //@   ensures err == nil ==> addrOK(ac, p.Admin) && p.MaxValidators != 0 && (forall j int :: 0 <= j && j < len(p.BridgeExecutors) ==> addrOK(ac, p.BridgeExecutors[j]))   // C16,C12: params_well_formed
+//@   ensures err == nil ==> decCoinsValid(p.MinGasPrices) && (forall j int :: 0 <= j && j < len(p.FeeWhitelist) ==> addrOK(ac, p.FeeWhitelist[j]) && len(p.FeeWhitelist[j]) > 0)   // C20: fee_whitelist_holds_only_addresses (INV_PARAMS is established here)
 //@   ensures addrOK(ac, p.Admin) && p.MaxValidators != 0 && decCoinsValid(p.MinGasPrices) && (forall j int :: 0 <= j && j < len(p.BridgeExecutors) ==> addrOK(ac, p.BridgeExecutors[j]))
 //@        && (forall j int :: 0 <= j && j < len(p.FeeWhitelist) ==> addrOK(ac, p.FeeWhitelist[j])) ==> err == nil                  // C16: every_well_formed_params_accepted
 //@   loop 0 invariant 0 <= $i && $i <= len(p.BridgeExecutors)
